@@ -1,0 +1,51 @@
+//! Verification hook (only compiled with the `verif` cargo feature).
+//!
+//! Add-only, read-only window onto the crate-private permutation-group structure `Group<Perm>`,
+//! so that an external model checker can compare it with a brute-force closure.
+//! Nothing in the crate uses this module.
+
+use crate::*;
+
+/// Public new-type around the crate-private `Group<Perm>`.
+#[derive(Clone, Debug)]
+pub struct VerifGroup(Group<Perm>);
+
+impl VerifGroup {
+    /// `omega` is the set of slots the permutations act on; `generators` are permutations of `omega`.
+    pub fn new(omega: &SmallHashSet<Slot>, generators: Vec<SlotMap>) -> Self {
+        let identity = SlotMap::identity(omega);
+        VerifGroup(Group::new(&identity, generators.into_iter().collect()))
+    }
+
+    pub fn contains(&self, p: &SlotMap) -> bool {
+        self.0.contains(p)
+    }
+
+    pub fn all_perms(&self) -> Vec<SlotMap> {
+        self.0.all_perms()
+    }
+
+    pub fn count(&self) -> usize {
+        self.0.count()
+    }
+
+    pub fn orbit(&self, s: Slot) -> SmallHashSet<Slot> {
+        self.0.orbit(s)
+    }
+
+    pub fn add_set(&mut self, perms: Vec<SlotMap>) -> bool {
+        self.0.add_set(perms.into_iter().collect())
+    }
+
+    pub fn add(&mut self, p: SlotMap) -> bool {
+        self.0.add(p)
+    }
+
+    pub fn generators(&self) -> Vec<SlotMap> {
+        self.0.generators().into_iter().collect()
+    }
+
+    pub fn is_trivial(&self) -> bool {
+        self.0.is_trivial()
+    }
+}
